@@ -396,7 +396,11 @@ def extract_const(spec, repo=REPO, plain=False):
     """`//@@ const <file> | <scope> ::> NAME == <value>` — rule R8: the const item's initialiser is taken
     verbatim and emitted as `exec const NAME: T ensures <Self::>NAME == value { <initialiser> }`, so the
     verifier proves the constant has the value the contracts are written against."""
-    m = re.match(r"(\S+)\s*\|\s*(.*?)\s*==\s*(.+)$", spec)
+    hint = ""
+    if ";;" in spec:
+        spec, hint = spec.split(";;", 1)
+        hint = hint.strip()
+    m = re.match(r"(\S+)\s*\|\s*(.*?)\s*==\s*(.+)$", spec.strip())
     if not m:
         raise Unsupported("bad const directive %r" % spec)
     file, path, value = m.group(1), m.group(2), m.group(3).strip()
@@ -429,8 +433,8 @@ def extract_const(spec, repo=REPO, plain=False):
     if plain:
         text = "    const %s: %s = %s;" % (name, ty, init)
     else:
-        text = ("    exec const %s: %s ensures %s%s == %s { broadcast use vstd::layout::layout_of_primitives; %s }"
-                % (name, ty, q, name, value, init))
+        text = ("    exec const %s: %s ensures %s%s == %s { broadcast use vstd::layout::layout_of_primitives; %s%s }"
+                % (name, ty, q, name, value, ("proof { %s } " % hint) if hint else "", init))
     info = {"name": "const " + name, "source_fn": path, "file": file, "line_start": 0, "line_end": 0,
             "sha256": _sha(hits[0].group(0)), "rules": {"R8-const-as-exec-const": 1}, "dropped": [], "loops": 0}
     return text, info
